@@ -50,7 +50,7 @@ func init() {
 	if _, err := os.Stat(tc); err == nil {
 		os.Setenv("PATH", tc+string(os.PathListSeparator)+os.Getenv("PATH"))
 	}
-	for _, kv := range [][2]string{{"GOWORK", "off"}, {"GOFLAGS", "-mod=mod"}, {"GOPROXY", "off"}, {"GOSUMDB", "off"}, {"GOTOOLCHAIN", "local"}} {
+	for _, kv := range [][2]string{{"GOWORK", "off"}, {"GOFLAGS", "-mod=readonly"}, {"GOPROXY", "off"}, {"GOSUMDB", "off"}, {"GOTOOLCHAIN", "local"}} {
 		os.Setenv(kv[0], kv[1])
 	}
 }
@@ -62,7 +62,7 @@ func goEnv() []string {
 	if _, err := os.Stat(tc); err == nil {
 		path = tc + string(os.PathListSeparator) + path
 	}
-	return append(env, "PATH="+path, "GOWORK=off", "GOFLAGS=-mod=mod", "GOPROXY=off", "GOSUMDB=off", "GOTOOLCHAIN=local")
+	return append(env, "PATH="+path, "GOWORK=off", "GOFLAGS=-mod=readonly", "GOPROXY=off", "GOSUMDB=off", "GOTOOLCHAIN=local")
 }
 
 // FuncNode is a function declaration or a function literal of a repository package.
@@ -126,7 +126,10 @@ func Load(dir string, patterns ...string) (*Prog, error) {
 			errs = append(errs, e.Error())
 		}
 		if len(pk.Syntax) == 0 {
-			errs = append(errs, "no syntax for "+pk.PkgPath)
+			if len(pk.GoFiles) > 0 {
+				errs = append(errs, "no syntax for "+pk.PkgPath)
+			}
+			return // no buildable files under the default build constraints
 		}
 		p.Repo = append(p.Repo, pk)
 	})
